@@ -129,11 +129,17 @@ def run(ctx):
                     if e0 < (1 << 64):
                         cases.append((S, [e0] + Eb[1:]))
         ok = mine.audit_allowed(AUDIT[name], skip=(4,))
+        rawwords = {w_ for v in m['specific'] for w_ in mine.as_words(v)}
+        nraw = 0
         base = lambda: pr.distinct_words(name, 'start') + [0] + pr.distinct_words(name, 'end')[1:]      # noqa
         for vec, pl in mine.plant_vectors(name, base, ok, rnd, budget=20 if ctx.quick else 100,
                                            max_singles=100 if ctx.quick else 1200):
             tup = len(pl) >= 2
-            es = (allerr if tup else [0] + rnd.sample(allerr, 3)) + [v for v in m['specific'] + m['common'] if 0 < v < 256][:8]
+            # a constant AS WRITTEN in the code, at a START position: under EVERY error number (the other START words are
+            # random non-zero words, so "this word 0 / this word 3, the others set" shapes are all reached)
+            rawstart = len(pl) == 1 and pl[0][0] < 4 and pl[0][1] in rawwords and nraw < (10 if ctx.quick else 400)
+            nraw += 1 if rawstart else 0
+            es = (allerr if (tup or rawstart) else [0] + rnd.sample(allerr, 3)) + [v for v in m['specific'] + m['common'] if 0 < v < 256][:8]
             for e0 in es:
                 cases.append((list(vec[:4]), [e0] + list(vec[5:])))
         for S2, E in cases:
@@ -150,7 +156,52 @@ def run(ctx):
                         'res': {'ds': [], 'de': [], 'dl': []}, 'calldep': False, 'parts': parse_result(tk[2], S2, E)})
             info[oid] = (text, S2, E)
     ctx.extra['planted_results'] = planted
-    nv, rej, _ = validate_observations('Render_Val', obs, ctx.workdir, name='c10val', timeout=3000)
+    # SHAPES: every zero / non-zero pattern of the START words (a decoder branching on "no mutex, timeout set" writes no
+    # constant the miner could see) under the error numbers - all of them in the thorough tier
+    from .encode import make_event
+    from pykdebugparser.traces_parser import TracesParser
+    errs2 = list(range(1, 111)) if not ctx.quick else [1, 2, 3, 4, 5, 9, 10, 11, 12, 13, 16, 17, 22, 24, 28, 32, 35, 36, 37, 45, 54,
+                                                       57, 60, 61, 63, 78, 89, 102, 105]
+    nshape = 0
+    codes_ = pr.w.codes
+    for name in names:
+        if name in EXEMPT:
+            continue
+        dom = AUDIT[name]['dom']
+        eid = pr.w.name2id[name]
+        pipe = name == 'BSC_pipe'
+        for pat in range(16):
+            S = []
+            for j in range(4):
+                zero = pat >> j & 1
+                d = dom[j]
+                if d is None:
+                    S.append(0 if zero else rnd.getrandbits(40) + 1000)
+                elif isinstance(d, list) and d:
+                    S.append(0 if (zero and 0 in d) else rnd.choice(d))
+                else:
+                    S.append(0x20006601 if d == 'ioctl' else 0)
+            Eb = [rnd.getrandbits(30) + 500, 2, 3]
+            for e0 in errs2:
+                p_ = TracesParser(codes_, {}, {})
+                try:
+                    p_.feed(make_event(10, eid | 1, 77, tuple(S)))
+                    r = p_.feed(make_event(11, eid | 2, 77, (e0, Eb[0], Eb[1], Eb[2])))
+                    text = None if r is None else str(r)
+                except Exception as ex:
+                    pr.raised.append((name, S, [e0] + Eb, repr(ex)))
+                    continue
+                tk = tokenize(text) if text else None
+                if tk is None:
+                    continue
+                nshape += 1
+                oid = '%s#z%d#%d' % (name, pat, e0)
+                obs.append({'id': oid, 'kind': 'res', 'name': name, 'exempt': False, 'e0zero': False,
+                            'okrefs': ['e1', 'e2'] if pipe else ['e1'], 'okdeps': [1, 2] if pipe else [1],
+                            'res': {'ds': [], 'de': [], 'dl': []}, 'calldep': False, 'parts': parse_result(tk[2], S, [e0] + Eb)})
+                info[oid] = (text, S, [e0] + Eb)
+    ctx.extra['zero_nonzero_shapes'] = nshape
+    nv, rej, _ = validate_observations('Render_Val', obs, ctx.workdir, name='c10val', timeout=3000, dedupe=True)
     ctx.traces += nv
     for oid, clause in rej:
         name = oid.split('#')[0]
